@@ -111,21 +111,39 @@ class C03(Prop):
     rule = ("one random acquisition (1..6 samples, 2..11 scans, 1..4 elements with spaces/brackets/32-character labels, any "
             "subset of the channels X/Y/Time/Analog/Counter, numbers with signs and exponents) written in both layouts with "
             "',' or ';' and '.' or ',' decimals, BOM on/off, CRLF/LF; explicit readers for every channel, params, sniffing, "
-            "and load (use_analog on/off); 14% of the cases: exports whose first 13..72 lines carry no decimal mark (integral values "
+            "and load (use_analog on/off), every one compared with the specification the driver computes from the acquisition "
+            "(pixels, element order, times of the first element, rounded mean interval, layout name); 14% of the cases: exports "
+            "whose first 13..72 lines carry no decimal mark (integral values "
             "written as 0/12/-3/1e5 for the first records of the columns layout and/or the first samples of the rows layout), "
-            "fractional values only later; plus non-export text files for the sniffer; non-trivial = every export case")
+            "fractional values only later; 10%: non-export text files for the sniffer (specification: the constant 'unknown' on "
+            "every text whose first and third line do not mention MainRuns); 18%: texts outside the export format (kind 'text': a "
+            "small export edited line by line — blank/comment lines, rows cut short or too long, missing sample rows or header "
+            "lines, missing trailing delimiters or final terminator, '#' and blanks in names, non-integer/negative/missing scan "
+            "numbers, ragged MainRuns lines, single selected lines, names with one line), where the property is silent and pewlib "
+            "is compared with the model only; non-trivial = every export and every text case")
     trusted = [
-        "float()/int()/str() and np.genfromtxt field conversion: a field parses to float(token) (NaN when that fails); "
+        "float()/int()/str() and the field conversion of np.genfromtxt: a field parses to float(token) (NaN when that fails, "
+        "loose mode), a scan field of the columns layout to int(token) (-1 when that fails); "
         "fixed-width unicode storage truncates; np.unique(return_index)+argsort = order of first appearance; "
-        "boolean-mask and usecols selection = filtering the zipped columns; structured assignment broadcasts a single column",
+        "boolean-mask and usecols selection = filtering the zipped columns; structured assignment broadcasts a single column; "
+        "np.genfromtxt line handling as modelled by `gfSplit` (comment cut at '#', strip(' \\r\\n'), empty lines skipped, "
+        "equal field counts without usecols, a row valid with usecols once it reaches the last selected column)",
         "the utf-8-sig codec removes the BOM; universal newlines; both layouts start with the delimiter",
-        "the Python table writer (harness/gen_thermo.py) is compared field by field with the Lean renderers in every case",
+        "the files written by harness/gen_thermo.py are compared in every case, field by field and (read back through Python's "
+        "text layer) line by line, with the tables and the text rendered by the Lean model; the model's readers run on that "
+        "text split again (lines under 20000 characters) or on the table (longer lines)",
         "scantime: exact rational mean of differences; a value within 1e-6 of a rounding tie at the 4th decimal is not compared",
     ]
     assumptions = [
         "labels and sample names: non-empty, at most 32 characters, no delimiter, no ',' , no '#', not containing a channel "
         "name or 'MainRuns'; every line ends with the delimiter (as Qtegra writes it)",
         "a channel that was not exported: the readers raise (compared with the model only, the property is silent)",
+        "texts outside the export format (kind 'text'): compared with the model only. strict (rows layout, edits that only "
+        "exercise str.split of the header rows and np.genfromtxt(usecols) on the sample rows; unedited columns exports): "
+        "every reader, the sniffer and load equal the model, exceptions included. soft (everything else): a correspondence "
+        "failure only when pewlib and the model both import and differ; a difference in whether they import is counted in the "
+        "evidence (feature text:soft:import-differs) and is not a violation, because a rewrite of the readers that keeps every "
+        "export importing exactly may change it",
     ]
 
     def generate(self, rng, tier):
@@ -210,16 +228,23 @@ class C03(Prop):
         missing = [c for c in ("Time", "Analog", "Counter") if c not in a["channels"]]
         rep = ctx.driver.call("c03.acq", samples=a["samples"], nscans=a["nscans"], elements=a["elements"], channels=a["channels"],
                               tokens=a["tokens"], comma=comma, delimiter=delim, parse=[[k, v] for k, v in table.items()],
-                              missing=missing)
+                              missing=missing, explicit_delimiter=bool(case["explicit_delimiter"]))
         if rep["table_rows"] != with_eol(trows) or rep["table_cols"] != with_eol(tcols):
             raise InternalError("Python table writer and Lean renderer disagree")
+        # the files as Python's text layer hands them to pewlib (codec, universal newlines) are, line by line, the text
+        # the Lean model rendered (and split again for its readers)
+        for path, key in ((prow, "text_rows"), (pcol, "text_cols")):
+            with path.open("r", encoding="utf-8-sig") as fp:
+                if list(fp) != rep[key]:
+                    raise InternalError("the file written and the text rendered by the Lean model disagree")
         dl = delim if case["explicit_delimiter"] else None
         impl, model, spec = {}, {}, {}
         und = False
         n, m = len(a["samples"]), a["nscans"]
         feats = {f"n{n}" if n <= 2 else "n>=3", f"m{m}" if m <= 2 else "m>=3", f"k{len(a['elements'])}" if len(a["elements"]) <= 2 else "k>=3",
                  f"delim{delim}dec{case['decimal']}", "bom" if case["bom"] else "no-bom", "crlf" if case["eol"] == "\r\n" else "lf",
-                 "explicit-delimiter" if dl else "auto-delimiter", "channels:" + "+".join(c[0] for c in a["channels"]), case["kind"]}
+                 "explicit-delimiter" if dl else "auto-delimiter", "channels:" + "+".join(c[0] for c in a["channels"]), case["kind"],
+                 "model-splits-the-text" if rep["resplit"] else "model-reads-the-table"}
         # lines of each layout before the first value written with the decimal mark (when there is one at all)
         for lay, t, hdr, lab in (("rows", trows, 4, 2), ("cols", tcols, 2, 4)):
             first = next((j for j, r in enumerate(t) if j >= hdr and any(case["decimal"] in f for f in r[lab:])), None)
